@@ -117,6 +117,7 @@ def run_shards(res, prop, hname, exe, mode, tier, shards, cases, max_size=100, e
         env["VERIF_SHARD"] = str(i)
         env["VERIF_NSHARDS"] = str(shards)
         env["VERIF_OPEN"] = opens
+        env.update(extra_env or {})
         log = os.path.join(tmpd, "s%d.log" % i)
         with open(log, "w") as lf:
             try:
@@ -346,11 +347,12 @@ def check_c17(tier):
                        "32/64-bit varints are boundary-biased samples, 8/16-bit ones exhaustive"])
 
 
-def check_simple(prop, hname, mode, tier, quick_cases, thorough_cases, required, assumptions):
+def check_simple(prop, hname, mode, tier, quick_cases, thorough_cases, required, assumptions, extra_env=None):
     t0 = time.time()
     exe = ensure_built([hname])[hname]
     res = Result()
-    run_shards(res, prop, hname, exe, mode, tier, 16, quick_cases if tier == "quick" else thorough_cases)
+    run_shards(res, prop, hname, exe, mode, tier, 16, quick_cases if tier == "quick" else thorough_cases,
+               extra_env=extra_env)
     res.required_classes = required
     return finish(prop, tier, res, t0, assumptions=assumptions)
 
@@ -379,7 +381,9 @@ def check_c14(tier):
                          "pc_builder_dedup", "pc_builder_nodedup", "special_float_patterns"],
                         ["strip output is taken through std::back_inserter (StoreStrip receives the iterator by value)",
                          "in degenerate-triangle mode faces with a repeated point id cannot be told from stitching and are "
-                         "not required in the output"])
+                         "not required in the output"],
+                        # the encoder-related exclusions of the shared generator do not apply to these utilities
+                        extra_env={"VERIF_OPEN": ""})
 
 
 CHECKS = {
